@@ -95,3 +95,42 @@ Proof.
   cbn [app]. replace (firstn (length before) ins) with before by (rewrite E, firstn_app_exact; reflexivity).
   reflexivity.
 Qed.
+
+(** ** AllowStdin *)
+
+(** with the standard input allowed, the inputs of the model (= the code after
+    the repair "count the implicit stdin input") are the declarative ones: the
+    paths by the label rule, or the standard input alone, labelled "-" *)
+Theorem labels_rule_stdin allow_labels paths :
+  files_inputs allow_labels (stdin_paths paths) = spec_inputs_stdin allow_labels paths.
+Proof.
+  destruct paths as [|p ps]; [|apply labels_rule].
+  cbn [stdin_paths spec_inputs_stdin]. destruct allow_labels; vm_compute; reflexivity.
+Qed.
+
+(** so the whole run with the standard input is the run over the declarative inputs *)
+Theorem files_run_stdin_inputs is_space is_lower is_upper atoi parse_float fs allow_labels paths stdin :
+  files_run_stdin is_space is_lower is_upper atoi parse_float fs allow_labels paths stdin =
+  files_loop is_space is_lower is_upper atoi parse_float (with_stdin stdin fs)
+             (spec_inputs_stdin allow_labels paths) rs_empty.
+Proof. unfold files_run_stdin, files_run. now rewrite labels_rule_stdin. Qed.
+
+(** the path "-" reads the standard input whatever file of that name exists *)
+Lemma with_stdin_dash stdin fs : fs_find (with_stdin stdin fs) dash = Some stdin.
+Proof. unfold with_stdin, fs_find. cbn [find fst snd]. now rewrite beq_refl. Qed.
+
+Lemma with_stdin_other stdin fs p : p <> dash -> fs_find (with_stdin stdin fs) p = fs_find fs p.
+Proof.
+  intros Hp. unfold with_stdin, fs_find. cbn [find fst snd].
+  destruct (beq_spec dash p) as [E|_]; [congruence|].
+  induction fs as [|[a c] fs IH]; cbn [filter find fst snd]; [reflexivity|].
+  destruct (beq_spec a dash) as [->|Had]; cbn [negb].
+  - destruct (beq_spec dash p) as [E|_]; [congruence|]. exact IH.
+  - cbn [find fst snd]. destruct (beq a p); [reflexivity|exact IH].
+Qed.
+
+(** the code before the repair labelled the only input "-#0" *)
+Theorem stdin_label_old_refuted :
+  files_inputs_nopaths_old = [mkFinput dash (bs "-#0") false] /\
+  spec_inputs_stdin true [] = [mkFinput dash (bs "-") false].
+Proof. vm_compute. split; reflexivity. Qed.
